@@ -1,26 +1,14 @@
+import Abverif.Proofs.C09Tables
 import Abverif.Proofs.Lemmas.Utf8Loop
+import Abverif.Proofs.Lemmas.Utf8Scalars
 /-
 C09 — UTF-8 validation equals RFC 3629, incrementally and in both implementations.
 
-Property theorems. The three table theorems are about the tables REGENERATED from /repo on every run
-(`Abverif/Generated/Utf8*.lean`); everything else is proved for all byte strings and all chunkings by induction.
+Property theorems. The three table theorems (`Proofs/C09Tables.lean`: tablePy_eq_rfc, tableC_eq_rfc,
+unrolledC_eq_rfc) are about the tables REGENERATED from /repo on every run (`Abverif/Generated/Utf8*.lean`);
+everything here is proved for all byte strings and all chunkings by induction and uses the tables only through them.
 -/
 namespace Abverif.Utf8
-
-/-! ## the shipped tables are the RFC automaton (all 9 × 256 cells each) -/
-
-/-- `UTF8VALIDATOR_DFA` of utf8validator.py, indexed as `validate` indexes it -/
-theorem tablePy_eq_rfc : ∀ s, s < 9 → ∀ o, o < 256 → pyStep s o = rfcStep s o := by decide +kernel
-
-/-- `UTF8VALIDATOR_DFA[]` of _utf8validator.c, indexed as `_nvx_utf8vld_validate_table` indexes it -/
-theorem tableC_eq_rfc : ∀ s, s < 9 → ∀ o, o < 256 → cTableStep s o = rfcStep s o := by decide +kernel
-
-/-- the `DFA_TRANSITION` macro of _utf8validator.c -/
-theorem unrolledC_eq_rfc : ∀ s, s < 9 → ∀ o, o < 256 → cUnrolledStep s o = rfcStep s o := by decide +kernel
-
-/-- `UTF8_ACCEPT` / `UTF8_REJECT` in both sources, and the table sizes -/
-theorem consts_eq_rfc : Gen.pyAccept = 0 ∧ Gen.pyReject = 1 ∧ Gen.cAccept = 0 ∧ Gen.cReject = 1 ∧
-    Gen.tablePyLen = 400 ∧ Gen.tableCLen = 400 := by decide
 
 /-! ## grammar ⇔ decision procedure ⇔ automaton -/
 
@@ -68,6 +56,34 @@ theorem wf_append (a b : Bytes) (ha : wf a = true) : wf (a ++ b) = wf b := by
   have key : ∀ x, (wf x = true ↔ run rfcStep 0 x = 0) := fun x => (run_accepts 0 (by omega) x).symm
   have : (wf (a ++ b) = true) ↔ (wf b = true) := by rw [key, key, run_append, h0]
   cases h1 : wf (a ++ b) <;> cases h2 : wf b <;> simp_all
+
+/-- grammar ⇔ code points: the well-formed strings are exactly the concatenated shortest-form encodings of
+Unicode scalar values (≤ U+10FFFF, no surrogates) — hence no overlong forms, no surrogates, nothing above U+10FFFF -/
+theorem WF_iff_scalars (b : Bytes) :
+    WF b ↔ ∃ cps : List Nat, (∀ cp ∈ cps, isScalar cp = true) ∧ b = encodeAll cps := by
+  constructor
+  · intro h
+    induction h with
+    | nil => exact ⟨[], by simp, rfl⟩
+    | cons c r hc _ ih =>
+      obtain ⟨cps, h1, h2⟩ := ih
+      obtain ⟨cp, h3, h4⟩ := UChar_encode c hc
+      refine ⟨cp :: cps, ?_, ?_⟩
+      · intro x hx
+        rcases List.mem_cons.mp hx with rfl | hx
+        · exact h3
+        · exact h1 x hx
+      · simp [encodeAll, h4, h2]
+  · rintro ⟨cps, h1, rfl⟩
+    induction cps with
+    | nil => exact WF.nil
+    | cons cp cps ih =>
+      have : encodeAll (cp :: cps) = encode cp ++ encodeAll cps := by simp [encodeAll]
+      rw [this]
+      exact WF.cons _ _ (encode_UChar cp (h1 cp (by simp))) (ih (fun x hx => h1 x (by simp [hx])))
+
+example : WF (encodeAll [0x41, 0x20AC, 0x10FFFF, 0xD7FF, 0xE000]) :=
+  (WF_iff_scalars _).mpr ⟨_, by decide, rfl⟩
 
 /-! ## the validators are the automaton -/
 
@@ -304,6 +320,136 @@ theorem py_after_reject (st : St) (h : st.state = 1) (b : Bytes) :
   have hok : st.ok := by show st.state < 9; omega
   rw [validatePy_eq_rfc _ hok, validateRfc, validate_rejected rfcStep 0 1 rfcStep_reject st h b]
   cases b <;> simp
+
+/-! ## the model meets the grammar-level Spec on every call of every call sequence -/
+
+theorem firstDeadFrom_eq (b : Bytes) (k : Nat) (hk : k < b.length)
+    (hlt : ∀ j, j < k → aliveB (b.take (j + 1)) = true) (hk2 : aliveB (b.take (k + 1)) = false) :
+    ∀ fuel i, i ≤ k → i + fuel = b.length → firstDeadFrom b i fuel = k := by
+  intro fuel
+  induction fuel with
+  | zero => intro i hi he; omega
+  | succ f ih =>
+    intro i hi he
+    simp only [firstDeadFrom]
+    by_cases hik : i < k
+    · rw [if_pos (hlt i hik)]; exact ih (i + 1) (by omega) (by omega)
+    · have : i = k := by omega
+      subst this
+      simp [hk2]
+
+/-- what `run`-level facts say about `aliveB` on prefixes -/
+theorem aliveB_take_of_run (b : Bytes) (k : Nat) (h : run rfcStep 0 (b.take k) ≠ 1) (j : Nat) (hj : j ≤ k) :
+    aliveB (b.take j) = true := by
+  rw [aliveB_iff_Alive]
+  have hk := (dfa_alive_iff_prefix _).mp h
+  have e : b.take k = b.take j ++ (b.take k).drop j := by
+    conv => lhs; rw [← List.take_append_drop j (b.take k)]
+    rw [List.take_take, Nat.min_eq_left hj]
+  rw [e] at hk
+  exact Alive_prefix _ _ hk
+
+theorem not_aliveB_of_run (b : Bytes) (h : run rfcStep 0 b = 1) : aliveB b = false := by
+  cases hb : aliveB b with
+  | false => rfl
+  | true => exact absurd h ((dfa_alive_iff_prefix b).mpr ((aliveB_iff_Alive b).mp hb))
+
+theorem run_of_take_reject (b : Bytes) (k : Nat) (h : run rfcStep 0 (b.take k) = 1) : run rfcStep 0 b = 1 := by
+  rw [← List.take_append_drop k b, run_append, h, run_reject]
+
+/-- one call on a fresh validator: the answer is the grammar-level Spec, the carried state is the automaton state
+and the number of bytes accepted -/
+theorem validate_init_full (b : Bytes) :
+    validatePy .init b = (specOne b, if aliveB b then ⟨run rfcStep 0 b, b.length⟩ else ⟨1, firstDead b⟩) := by
+  rw [validatePy_eq_rfc _ (by show 0 < 9; omega)]
+  rcases validate_cases rfcStep 0 1 .init b (by decide) with ⟨h1, h2⟩ | ⟨k, hk, h1, h2, h3⟩
+  · have ha : aliveB b = true := (aliveB_iff_Alive b).mpr ((dfa_alive_iff_prefix b).mp h1)
+    rw [validateRfc, h2, specOne, if_pos ha, if_pos ha]
+    have : (run rfcStep 0 b == 0) = wf b := by
+      have := run_accepts 0 (by omega) b
+      simp only [lang] at this
+      cases hw : wf b <;> simp_all
+    simp [this, St.init]
+  · have hd : aliveB b = false := not_aliveB_of_run b (run_of_take_reject b (k + 1) h2)
+    have hf : firstDead b = k :=
+      firstDeadFrom_eq b k hk (fun j hj => aliveB_take_of_run b k h1 (j + 1) (by omega))
+        (not_aliveB_of_run _ h2) b.length 0 (by omega) (by omega)
+    rw [validateRfc, h3, specOne, hd]
+    simp [hf, St.init]
+
+/-- one call on a fresh validator answers exactly what the grammar-level Spec prescribes -/
+theorem validate_eq_specOne (b : Bytes) : (validatePy .init b).1 = specOne b := by
+  rw [validate_init_full]
+
+/-- the Spec's offender position is the (unique) first offending byte -/
+theorem specOne_offender (b : Bytes) (h : aliveB b = false) : offenderAt b (firstDead b) = true := by
+  have hs := validate_eq_specOne b
+  simp only [specOne, h, Bool.false_eq_true, ↓reduceIte] at hs
+  obtain ⟨h1, h2, h3, _, _⟩ := first_offender b false (firstDead b) (firstDead b) hs
+  have a1 := (aliveB_iff_Alive _).mpr h1
+  have a2 : aliveB (b.take (firstDead b + 1)) = false := by
+    cases hb : aliveB (b.take (firstDead b + 1)) with
+    | false => rfl
+    | true => exact absurd ((aliveB_iff_Alive _).mp hb) h2
+  simp [offenderAt, h3, a1, a2]
+
+theorem aliveB_prefix (a b : Bytes) (h : aliveB (a ++ b) = true) : aliveB a = true :=
+  (aliveB_iff_Alive a).mpr (Alive_prefix a b ((aliveB_iff_Alive _).mp h))
+
+/-- every answer of the pure-Python validator conforms to the Spec judge, whatever was fed before -/
+theorem call_conforms (pre c : Bytes) :
+    judgeCall pre c (validatePy (validatePy .init pre).2 c).1 = .ok := by
+  by_cases hnow : aliveB (pre ++ c) = true
+  · have hpre := aliveB_prefix pre c hnow
+    have hv : (validatePy .init pre).1.valid = true := by rw [validate_eq_specOne, specOne, if_pos hpre]
+    have hw := call_eq_whole pre c hv
+    simp only [validate_eq_specOne, specOne, if_pos hnow, Res.mk.injEq] at hw
+    obtain ⟨w1, w2, w3, w4⟩ := hw
+    have hcur : (validatePy (validatePy St.init pre).2 c).1.cur = c.length := by
+      simp only [List.length_append] at w3; omega
+    simp [judgeCall, hnow, ← w1, ← w2, ← w4, hcur]
+  · have hnow' : aliveB (pre ++ c) = false := by simpa using hnow
+    by_cases hpre : aliveB pre = true
+    · have hv : (validatePy .init pre).1.valid = true := by rw [validate_eq_specOne, specOne, if_pos hpre]
+      have hw := call_eq_whole pre c hv
+      simp only [validate_eq_specOne, specOne, hnow', Bool.false_eq_true, ↓reduceIte, Res.mk.injEq] at hw
+      obtain ⟨w1, w2, w3, w4⟩ := hw
+      have ho := specOne_offender (pre ++ c) hnow'
+      simp [judgeCall, hnow', hpre, ← w1, ← w2, ← w4, ho, ← w3]
+    · have hpre' : aliveB pre = false := by simpa using hpre
+      have hst : (validatePy .init pre).2 = ⟨1, firstDead pre⟩ := by
+        rw [validate_init_full]; simp [hpre']
+      rw [hst, py_after_reject _ rfl]
+      have ho := specOne_offender pre hpre'
+      cases c <;> simp [judgeCall, hnow', hpre', ho]
+
+/-- **Model meets Spec on every call sequence**: the per-call answers of the pure-Python validator, for any
+chunk list (empty chunks and calls after a reject included), pass the grammar-level conformance judge -/
+theorem py_conforms (cs : List Bytes) : judge [] 0 cs (feed validatePy .init cs).1 = none := by
+  have h0 : St.init.ok := by show 0 < 9; omega
+  have gen : ∀ (cs : List Bytes) (pre : Bytes) (k : Nat),
+      judge pre k cs (feed validatePy (validatePy .init pre).2 cs).1 = none := by
+    intro cs
+    induction cs with
+    | nil => intro pre k; rfl
+    | cons c cs ih =>
+      intro pre k
+      rw [feed_cons]
+      simp only [judge, call_conforms pre c]
+      have hnext : (validatePy (validatePy St.init pre).2 c).2 = (validatePy St.init (pre ++ c)).2 := by
+        have hok : (validatePy St.init pre).2.ok := by rw [validatePy_eq_rfc _ h0]; exact validateRfc_ok _ h0 _
+        rw [validatePy_eq_rfc _ hok, validatePy_eq_rfc _ h0, validatePy_eq_rfc _ h0]
+        exact (validate_append rfcStep 0 1 rfcStep_reject .init pre c).1
+      rw [hnext]
+      exact ih (pre ++ c) (k + 1)
+  have := gen cs [] 0
+  have e : (validatePy St.init []).2 = St.init := by decide
+  rwa [e] at this
+
+/-- the judge is not vacuous: it rejects today's NVX answers on the F1 sequence, and accepts the Python ones -/
+example : judge [] 0 [[0xFF], [0x41]] (feed (validateNvx 1) .init [[0xFF], [0x41]]).1 = some (1, .forgetsRejectOnNextCall) := by
+  decide
+
 
 /-! ## NVX = pure Python -/
 
